@@ -1180,6 +1180,25 @@ static void run_path(uint64_t seed, uint64_t idx, const std::string& outdir, FIL
         return;
     }
 
+    // two bends that compete for one segment: now and then the radius is re-chosen so that the first of two consecutive corners
+    // takes three quarters of the segment they share (the second bend then no longer fits in what is left)
+    if (!directed && family == 0 && fp.spine.point_array.count >= 4 && g.chance(25)) {
+        const Array<Vec2>& sp = fp.spine.point_array;
+        for (uint64_t e = 0; e < B.n; e++) {
+            if (B.el[e].bend != BendType::Circular) continue;
+            uint64_t k = 1 + g.below(sp.count - 3);  // corners k and k + 1 share the segment k -> k + 1
+            Vec2 d0 = sp[k] - sp[k - 1], d1 = sp[k + 1] - sp[k];
+            double l0 = d0.length(), l1 = d1.length();
+            if (l0 <= 0 || l1 <= 0) continue;
+            double th = fabs(atan2(d0.cross(d1), d0.inner(d1)));
+            if (th < 0.2 || th > 2.6) continue;
+            double R = 0.75 * l1 / tan(th / 2);
+            if (R * tan(th / 2) >= l0 || R <= 1.1 * B.Wmax) continue;
+            B.el[e].bend_radius = R;
+            fp.elements[e].bend_radius = R;
+            em.T("bend-radius-competing");
+        }
+    }
     // outlines (to_polygons removes overlapping points first: the spine arrays are read afterwards)
     Array<Polygon*> polys = {};
     ErrorCode err = fp.to_polygons(false, 0, polys);
